@@ -100,12 +100,13 @@ func planReal(dev, spoc, v6, raw string) (p realPlan) {
 // ---------------------------------------------------------------- one case
 
 type checker struct {
-	ctx  *Ctx
-	prop string
-	res  *Result
-	drv  *Nadrv
-	tmp  string
-	n    int
+	ctx   *Ctx
+	prop  string
+	res   *Result
+	drv   *Nadrv
+	tmp   string
+	n     int
+	plain bool // the pair being judged lies in the fragment of the whole-vsys theorems (PlainPair)
 }
 
 func encScripts(m map[string][][4]int) string {
@@ -265,6 +266,10 @@ func (c *checker) fail(symptom, pred, what string, in caseInput, extra map[strin
 	c.res.Count("oracle:" + propOf(symptom) + ":" + pred)
 	if propOf(symptom) != c.prop {
 		return
+	}
+	if c.plain {
+		c.res.Count("fragment:failure-inside-proven-fragment")
+		what += " [this pair lies in the fragment for which the whole-vsys theorems panos_*_partial are proved of the model: the code does not behave like the model here]"
 	}
 	sig := map[string]any{"pred": pred, "backend": "PAN-OS", "symptom": symptom}
 	for k, v := range extra {
@@ -441,21 +446,39 @@ func (c *checker) runCase(in caseInput, deep bool) (devVsys []panos.VerifVsys, r
 		res.Sample(map[string]any{"input": in, "commands": per})
 	}
 	// oracle, per targeted vsys
+	trees := map[string]panos.VerifVsys{} // per targeted vsys whose requests were all accepted: the state reached
+	allAccepted := true
+	defer func() { c.plain = false }()
 	for _, name := range targetedNames(p) {
 		a := *findVsys(p.A, name)
 		b := *findVsys(p.B, name)
 		fl := flags[name]
 		cmds := per[name]
 		fl = withSent(fl, cmds)
+		c.plain = false
 		if fl["wfA"] != "1" || fl["wfB"] != "1" {
 			res.Count("oracle-skipped:not-wellformed")
+			allAccepted = false
 			continue
 		}
 		res.Count("oracle:pairs")
+		c.plain = fl["plain"] == "1"
+		if c.plain {
+			res.Count("fragment:plain-pair")
+			if fl["tnames"] == "1" && fl["srvnd"] == "1" {
+				res.Count("fragment:plain-pair-idempotence-hyps")
+			}
+		}
 		r, ok := c.exec(in.Shared, a, cmds, &b)
 		if !ok {
 			res.Disagree("exec (driver)", in, "", r.Raw)
+			allAccepted = false
 			continue
+		}
+		if r.Accepted == len(cmds) {
+			trees[name] = r.Tree
+		} else {
+			allAccepted = false
 		}
 		if len(cmds) == 0 {
 			res.Count("oracle:empty-plan")
@@ -514,7 +537,63 @@ func (c *checker) runCase(in caseInput, deep bool) (devVsys []panos.VerifVsys, r
 			c.resume(in, name, a, b, cmds, fl)
 		}
 	}
+	c.plain = false
+	if allAccepted {
+		c.devExec(in, p, per, trees)
+	}
 	return
+}
+
+// devExec executes the whole real plan on the whole device (Lean: execDevAll) and compares: a vsys
+// the target names must be what the stand-alone execution of its own requests gave
+// (execDevAll_planDevice), every other vsys must be what it was (panos_outside_vsys_untouched).
+func (c *checker) devExec(in caseInput, p realPlan, per map[string][]string, trees map[string]panos.VerifVsys) {
+	res := c.res
+	seen := map[string]bool{}
+	for _, v := range p.A.Vsys {
+		if seen[v.Name] {
+			res.Count("devexec-skipped:duplicate-vsys-name")
+			return
+		}
+		seen[v.Name] = true
+	}
+	var groups []string
+	for _, v := range p.A.Vsys {
+		if l := per[v.Name]; len(l) > 0 {
+			groups = append(groups, enc(v.Name)+"|"+strings.Join(l, ";"))
+		}
+	}
+	ans := c.drv.Ask("DEVEXEC\t" + encList(in.Shared) + "\t" + encDevice(p.A.Vsys) + "\t" + strings.Join(groups, "!"))
+	head, body, _ := strings.Cut(ans, "\t")
+	if head != "ok" {
+		res.Disagree("devexec: the whole plan is refused on the whole device although every vsys accepts its own requests", in, "ok", ans)
+		return
+	}
+	parts := splitNE(body, "!")
+	if len(parts) != len(p.A.Vsys) {
+		c.fail("outside_targeted_vsys", "outside_targeted_vsys", fmt.Sprintf("the device has %d vsys after the plan, %d before", len(parts), len(p.A.Vsys)), in, nil)
+		return
+	}
+	for i, v := range p.A.Vsys {
+		got, err := decVsys(parts[i])
+		if err != nil {
+			res.Disagree("devexec (driver)", in, "", parts[i])
+			return
+		}
+		if t, targeted := trees[v.Name]; targeted {
+			if encVsys(got) != encVsys(t) {
+				res.Disagree("devexec: vsys "+v.Name+" after the whole plan differs from the stand-alone execution of its requests", in, encVsys(t), encVsys(got))
+				return
+			}
+			continue
+		}
+		if encVsys(got) != encVsys(v) {
+			c.fail("outside_targeted_vsys", "outside_targeted_vsys", "vsys "+v.Name+", which the target does not name, is changed by the plan", in, nil)
+			return
+		}
+		res.Count("devexec:vsys-untouched")
+	}
+	res.Count("devexec:ok")
 }
 
 func (c *checker) resume(in caseInput, name string, a, b panos.VerifVsys, cmds []string, fl map[string]string) {
